@@ -85,7 +85,7 @@ def try_seed(name, checks):
     try:
         for c in checks:
             t0 = time.time()
-            p = sh(f"cd {VERIF} && ./check {c} --tier quick")
+            p = sh(f"cd {VERIF} && timeout -k 5 900 ./check {c} --tier quick")
             viol = [l for l in p.stdout.splitlines() if l.startswith("VIOLATION")]
             res = {"exit": p.returncode, "violations": len(viol), "wall_s": round(time.time() - t0, 1),
                    "first": (viol[0] if viol else ""),
